@@ -67,6 +67,14 @@ FAMILY = [
     "{% set a = namespace() %}{% set b = namespace() %}{% set c = namespace() %}{% set a.x, b.y, c.z = 1, 2, 3 %}{% set b.p, a.q = 4, 5 %}",
     "{% from 'm' import f1, f2, f3, f4 %}{% from 'n' import g1 as h1, g2 as h2, g3 %}",
     "{% import 'm' as a %}{% import 'n' as b %}{% import 'o' as c %}{% set d = 1 %}{% set e = 2 %}{% macro m1() %}{% endmacro %}{% macro m2() %}{% endmacro %}",
+    # constant expressions folded at compile time: the filter runs inside the compiler and its result is source text
+    "{{ 'http://example.com'|urlize(nofollow=true) }}",
+    "{{ 'see http://a.example and www.b.example'|urlize(rel='x y', target='_blank') }}",
+    "{% autoescape true %}{{ 'http://example.com x@example.org'|urlize(12, true, rel='me') }}{% endautoescape %}",
+    "{{ {'b': 1, 'a': 2, 'c': 3}|dictsort }}{{ {'b': 1, 'a': 2}|xmlattr }}{{ {'b': [1, 2], 'a': 'x'}|tojson }}",
+    "{{ ['b', 'a', 'b', 'c', 'a']|unique|list }}{{ [3, 1, 2]|sort }}{{ 'b a c a'|wordcount }}{{ ['x', 'y']|join('-') }}",
+    "{{ 'a b'|urlencode }}{{ {'k': 'v w', 'j': 'x'}|urlencode }}{{ 'a,b'|replace(',', ';') }}{{ '<a b>'|striptags }}",
+    "{{ [1, 2, 3]|select('odd')|list }}{{ [{'a': 1}, {'a': 2}]|map(attribute='a')|list }}{{ [{'a': 1, 'b': 2}]|groupby('a') }}",
     # special names used together in one block / macro / loop
     "{% extends 'base' %}{% block a %}{{ self.b() }}{{ super() }}{% endblock %}{% block b %}{{ super.super() }}{{ self.a() }}{{ x }}{% endblock %}",
     "{% block a %}{{ self.a }}{{ super() }}{{ loop }}{{ caller }}{{ varargs }}{{ kwargs }}{% endblock %}",
@@ -195,7 +203,7 @@ def run(ctx: core.Ctx):
     bound = 1 if ctx.quick else 2
     ctx.rule = ("every template of the family x 3 environments, compiled under every alternative iteration order at up to "
                 f"{bound} iteration point(s) of the owned sets; distinct = distinct (template, environment, #points, source hash)")
-    ctx.assumptions += ["sets that feed code generation are created through the name `set` in idtracking/compiler/ext",
+    ctx.assumptions += ["sets that feed code generation are created through the name `set` in idtracking/compiler/ext and, for constant folding, filters/tests/utils/optimizer/parser",
                         "PYTHONHASHSEED subprocesses are a non-exhaustive cross-check of the un-owned remainder"]
     extra = corpus_sources()
     fam = FAMILY + (more_templates() if not ctx.quick else more_templates()[:100]) + extra
